@@ -81,6 +81,7 @@ TPurge    == IsEvent("purge") /\ Do(PurgeHostsM, PropIdle)
 TRestart  == IsEvent("restart") /\ Do(RestartM, RestartR)
 TReload   == IsEvent("reload") /\ Do(ReloadM, ReloadR)
 TReconf   == IsEvent("reconf") /\ Do(ReconfM, ReconfR)
+TAge      == IsEvent("age") /\ Do(AgeM, AgeR)
 
 \* the library panicked inside this step (reported by the check itself); the driver abandons the
 \* behaviour, the next line is a reset
@@ -93,7 +94,7 @@ TraceInit == /\ l = 1 /\ TLCSet(HW, 0) /\ TLCSet(VI, <<>>) /\ TLCSet(KF, {})
              /\ acked = [j \in CIDs |-> Nil] /\ obs = [j \in CIDs |-> NoObs] /\ verdict = {}
 
 TraceNext == \/ TPanic \/ TReset \/ TDiscover \/ TRequest \/ TDecline \/ TRelease \/ TCapture \/ TUncapture
-             \/ TTick \/ TForeign \/ TPurge \/ TRestart \/ TReload \/ TReconf
+             \/ TTick \/ TForeign \/ TPurge \/ TRestart \/ TReload \/ TReconf \/ TAge
 
 TraceSpec == TraceInit /\ [][TraceNext]_tvars
 
